@@ -797,6 +797,7 @@ func runRtspOnce(c RtspCase) *pbt.Violation {
 	}
 	cseq := 0
 	pre := c.prefix(&cseq)
+	nPrefix := cseq // requests of the valid prefix = responses to expect
 	tail := c.tail(&cseq)
 	conn := s.RtspConn()
 	if c.Udp && !c.subscriberSide() && (c.Stage == "setup" || c.Stage == "recording") {
@@ -804,7 +805,18 @@ func runRtspOnce(c RtspCase) *pbt.Violation {
 		// they are handled in lal's own reader goroutines (a panic there kills the process: Isolate)
 		_ = conn.WriteSliced(pre, c.Slices)
 		conn.WaitPeerIdle(lalclient.IdleTimeout)
-		c.sendDatagrams(s, string(conn.ReadAvailable()))
+		// lal writes its responses from a goroutine of its own: wait (bounded) until one response per request of the
+		// prefix has arrived
+		var responses []byte
+		deadline := time.Now().Add(10 * time.Second)
+		for {
+			responses = append(responses, conn.ReadAvailable()...)
+			if strings.Count(string(responses), "RTSP/1.0 ") >= nPrefix || conn.PeerGone() || time.Now().After(deadline) {
+				break
+			}
+			time.Sleep(200 * time.Microsecond)
+		}
+		c.sendDatagrams(s, string(responses))
 		pre = nil
 	}
 	wire := append(pre, tail...)
